@@ -19,6 +19,9 @@ from . import boundary
 MISC = "pyxel/observation/misc.py"
 OBS = "pyxel/observation/observation.py"
 PV = "pyxel/observation/parameter_values.py"
+BOUNDED = {
+    r'.*': 'parameter spaces of 1..3 parameters with 1..3 values each and tables of 1..2 rows (symbolic values and enabled flags)',
+}      # unit-name / obligation-name patterns -> the family these obligations are proved for
 TRUSTED = ["shapes are bounded: 1..3 parameters, list lengths 1..3, 1..2 table rows (symbolic values, defaults and enabled flags inside each shape)",
            "itertools.product order; pandas MultiIndex.from_product / Series.to_xarray keep product order (boundary)", "xarray places each run at its coordinates (boundary)",
            "processor.get(key) returns the configured default of key"]
